@@ -7,10 +7,14 @@
 // Sections (each can be selected with -only):
 //
 //	shake   serverHandshake via transport.AcceptRawSocket over net.Pipe, every
-//	        request class x receive-limit configuration
+//	        request class x receive-limit configuration; and the stream ENDING during the
+//	        handshake (0..3 request bytes, then end of stream: scripted conn and net.Pipe)
 //	chs     clientHandshake via transport.ConnectRawSocketPeer against a scripted
 //	        server on a unix socket, every reply class
 //	stream  the reader goroutine on arbitrary frame sequences (scripted conn)
+//	eof     the reader goroutine when the stream ENDS: between frames, inside a header, a MSG
+//	        body, a PING or a PONG payload (scripted conn reporting io.EOF, and net.Pipe closed by
+//	        the harness): events, termination, connection closed, log line, sender cancelled or not
 //	send    the sender goroutine at sendLimit-1 / sendLimit / sendLimit+1
 //	ws      websocket peers over an in-memory connection pair, three serializers
 //	attach  the same scenario through every transport of harness/tpeers against a real
@@ -188,6 +192,10 @@ type replayCase struct {
 	Chunks []int  `json:"chunks,omitempty"`
 	Items  []item `json:"items,omitempty"`
 	Cut    int    `json:"cut,omitempty"`
+	// eof
+	Keep  int    `json:"keep"`
+	Mode  string `json:"mode,omitempty"`
+	Queue int    `json:"queue,omitempty"`
 	// send
 	Nibble int   `json:"nibble,omitempty"`
 	Sizes  []int `json:"sizes,omitempty"`
@@ -252,7 +260,7 @@ func main() {
 			name string
 			run  func(*hcommon.RNG)
 		}{
-			{"shake", runShake}, {"chs", runClientShake}, {"stream", runStreams}, {"send", runSend},
+			{"shake", runShake}, {"chs", runClientShake}, {"stream", runStreams}, {"eof", runEOF}, {"send", runSend},
 			{"ws", runWebsocket}, {"attach", runAttach}, {"drain", runDrain}, {"f18", runF18},
 		}
 		for _, s := range sections {
@@ -269,6 +277,7 @@ func main() {
 	sum.DistinctNontrivial = len(distinct)
 	sum.Rule = "distinct case signatures: handshake = request class (magic, reserved bytes, both nibbles) x limit configuration; " +
 		"client handshake = protocol x limit x reply class; stream = serializer x limit x sequence of (frame kind, length class) x cut class; " +
+		"eof = the stream signature x connection (script|pipe) x queued messages x where the stream ended (model's reader state); " +
 		"send = serializer x limit nibble x size class; ws = serializer x direction x item kinds; " +
 		"attach/drain = transport x serializer (x queue shape); f18 = scenario"
 	sort.Strings(sum.Notes)
@@ -292,6 +301,11 @@ func runReplay(c replayCase) {
 		checkClientShakes([]chsCase{{c.Protocol, c.RecvLimit, rep}})
 	case "stream":
 		checkStreams([]streamCase{{Ser: c.Ser, RecvLimit: c.RecvLimit, Items: c.Items, Cut: c.Cut, Chunks: c.Chunks}}, false)
+	case "shortshake":
+		b, _ := hex.DecodeString(strings.TrimPrefix(c.Request, "-"))
+		checkShortShakes([]shortShakeCase{{Bytes: b, RecvLimit: c.RecvLimit, Mode: c.Mode}})
+	case "eof":
+		checkEOF([]eofCase{{Ser: c.Ser, RecvLimit: c.RecvLimit, Items: c.Items, Keep: c.Keep, Chunks: c.Chunks, Mode: c.Mode, Queue: c.Queue}})
 	case "send":
 		checkSend(c.Ser, c.Nibble, c.Sizes)
 	default:
